@@ -1,5 +1,7 @@
 package main
 
+import "strings"
+
 func init() {
 	register(propSpec{
 		ID: "C12",
@@ -10,6 +12,18 @@ func init() {
 			c.guard("RW.DISPATCH", r.ruleCover)
 			c.guard("RW.BRANCHCTX", r.ruleBranchCtx)
 			c.guard("RW.SIG", r.ruleSig)
+			// C12 answers for the unsupported forms: labelled break/continue, goto, fallthrough out of a yielding case
+			c.keep(func(o Obligation) bool {
+				if o.Rule == "RW.BRANCHCTX" {
+					return strings.HasSuffix(o.Construct, " L") || strings.Contains(o.Construct, ": goto") || strings.Contains(o.Construct, ": fallthrough")
+				}
+				return true
+			})
+			c.min("RW.DISPATCH", 21)
+			c.min("RW.FIELDCOV", 8)
+			c.min("RW.DEEPVISIT", 6)
+			c.min("RW.BRANCHCTX", 100)
+			c.min("RW.SIG", 2)
 		},
 	})
 }
@@ -23,7 +37,6 @@ func init() {
 			r := newRwRT(c)
 			c.guard("RW.KINDTAB", r.ruleKindTab)
 			c.guard("RW.BRANCHCTX", r.ruleBranchCtx)
-			c.guard("RW.TERM", r.ruleTerm)
 			s := newSeqRT(c)
 			c.guard("SEQ.ROLE", func() { s.ruleRole() })
 			c.guard("SEQ.COMBINE", s.ruleCombine)
@@ -38,6 +51,17 @@ func init() {
 			}
 			c.guard("RW.SCOPEAGREE", func() { r.ruleScopeAgree(forOK, "agree") })
 			c.guard("RW.TMPL.FOR", r.ruleTmplFor)
+			// C01 answers for the supported subset: unlabelled break/continue (labelled forms, goto and fallthrough are C12's)
+			c.keep(func(o Obligation) bool {
+				if o.Rule == "RW.BRANCHCTX" {
+					return strings.HasSuffix(o.Construct, ": break") || strings.HasSuffix(o.Construct, ": continue") || strings.HasSuffix(o.Construct, "stacks balanced")
+				}
+				return o.Rule != "SEQ.LAZY"
+			})
+			c.min("RW.BRANCHCTX", 200)
+			c.min("RW.KINDTAB", 3)
+			c.min("SEQ.FOR", 6)
+			c.min("RW.SCOPEAGREE", 3)
 		},
 	})
 }
@@ -58,6 +82,24 @@ func init() {
 			c.guard("RW.TMPL.YIELDFUNC", r.ruleTmplYieldFunc)
 			c.guard("RW.SCOPE.INIT", r.ruleScopeInit)
 			c.guard("RW.TMPL.FORPOST", func() { r.ruleScopeAgree(true, "forpost") })
+			// scoping only: the combine table, hoisting (not return rewriting), the consumer loop's binding form
+			c.keep(func(o Obligation) bool {
+				switch o.Rule {
+				case "RW.KINDTAB":
+					return o.Construct == "combineRequired"
+				case "RW.TMPL.RETURN":
+					return false
+				case "RW.TMPL.CONSUMER":
+					return strings.Contains(o.Construct, "<Ident>") || strings.Contains(o.Construct, "nested in its own block")
+				case "RW.TMPL.YIELDFUNC":
+					return o.Construct == "generator body"
+				}
+				return true
+			})
+			c.min("RW.TMPL.HOIST", 6)
+			c.min("RW.TMPL.RANGE", 12)
+			c.min("RW.SCOPE.INIT", 4)
+			c.min("RW.TMPL.BIND", 1)
 		},
 	})
 }
@@ -84,10 +126,28 @@ func init() {
 			c.guard("RW.TMPL.YIELDFROM", r.ruleTmplYieldFrom)
 			c.guard("RW.TMPL.CONSUMER", r.ruleTmplConsumer)
 			c.guard("RW.FILEPASSES", r.ruleFilePasses)
+			// a delegation in for-post position must reach the lowering (not be re-emitted verbatim)
+			c.guard("RW.FIELDCOV", func() { r.ruleCoverKinds(map[string]bool{"ForStmt": true}) })
 			s := newSeqRT(c)
-			c.guard("SEQ.FOR", s.ruleFor)
+			// delegation lowers to a post-less loop: only those runtime shapes matter here
+			c.guard("SEQ.FOR", func() { s.ruleForOnly(func(fc forCase) bool { return fc.postNil }) })
 			c.guard("SEQ.COMBINE", s.ruleCombine)
 			c.guard("SEQ.SUSPEND", s.ruleSuspend)
+			c.keep(func(o Obligation) bool {
+				switch o.Rule {
+				case "RW.FILEPASSES":
+					return strings.HasPrefix(o.Construct, "order of passes")
+				case "RW.DISPATCH", "RW.DEEPVISIT", "SEQ.LAZY":
+					return false
+				case "RW.FIELDCOV":
+					return strings.Contains(o.Construct, "post=true")
+				}
+				return true
+			})
+			c.min("RW.TMPL.YIELDFROM", 2)
+			c.min("RW.TMPL.CONSUMER", 2)
+			c.min("RW.FIELDCOV", 4)
+			c.min("SEQ.FOR", 4)
 		},
 	})
 	register(propSpec{
@@ -99,6 +159,14 @@ func init() {
 			c.guard("RW.TMPL.CONSUMER", r.ruleTmplConsumer)
 			c.guard("RW.TMPL.ITERTYPE", r.ruleIterType)
 			c.guard("RW.FILEPASSES", r.ruleFilePasses)
+			c.keep(func(o Obligation) bool {
+				if o.Rule == "RW.FILEPASSES" {
+					return strings.HasPrefix(o.Construct, "order of passes")
+				}
+				return true
+			})
+			c.min("RW.TMPL.CONSUMER", 2)
+			c.min("RW.TMPL.ITERTYPE", 3)
 		},
 	})
 }
@@ -116,6 +184,15 @@ func init() {
 			c.guard("OPT.ORDER", r.ruleOptOrder)
 			c.guard("RW.TMPL.COMBINE", r.ruleTmplCombine)
 			c.guard("RW.TMPL.FOR", r.ruleTmplFor)
+			c.keep(func(o Obligation) bool {
+				if o.Rule == "OPT.ORDER" {
+					return o.Construct == "file using seq"
+				}
+				return o.Rule != "SEQ.LAZY"
+			})
+			c.min("OPT.WHITELIST", 4)
+			c.min("OPT.BINDLIT", 1)
+			c.min("OPT.ETA", 20)
 		},
 	})
 }
@@ -133,6 +210,23 @@ func init() {
 			c.guard("RW.BRANCHCTX", r.ruleBranchCtx)
 			c.guard("RW.TMPL.ITERTYPE", r.ruleIterType)
 			c.guard("RW.NODECL", func() { ruleRwNoDecl(c) })
+			// C13 answers for code that is not a generator: ordinary closures nested in generators, non-iterator index expressions
+			c.keep(func(o Obligation) bool {
+				switch o.Rule {
+				case "RW.TMPL.HOIST", "RW.TMPL.RETURN":
+					return strings.HasPrefix(o.Construct, "nested ordinary closure")
+				case "RW.BRANCHCTX":
+					return strings.Contains(o.Construct, "FuncLit")
+				case "RW.TMPL.ITERTYPE":
+					return strings.Contains(o.Construct, "= false")
+				}
+				return true
+			})
+			c.min("RW.MUTGUARD", 10)
+			c.min("OPT.ETA", 20)
+			c.min("RW.TMPL.HOIST", 3)
+			c.min("RW.TMPL.RETURN", 2)
+			c.min("RW.BRANCHCTX", 100)
 		},
 	})
 	register(propSpec{
@@ -179,6 +273,36 @@ func init() {
 			c.guard("OPT.ORDER", r.ruleOptOrder)
 			c.guard("RW.TMPL.CONSUMER", r.ruleTmplConsumer)
 			c.guard("RW.RANGEDISPATCH", r.ruleRangeDispatch)
+			// C11 answers for panics and unbuildable output only
+			buildBreaking := []string{"builtin", "conversion", "generic function with inferred", "types differ", "unresolved identifier", "pattern shape", "liveness"}
+			c.keep(func(o Obligation) bool {
+				switch o.Rule {
+				case "RW.FIELDCOV", "RW.DEEPVISIT":
+					return false // behaviour, C12
+				case "RW.KINDTAB":
+					return o.Construct == "returnNormalRequired"
+				case "RW.BRANCHCTX":
+					// a branch inside a function literal: a wrong replacement puts `return seq.Break()` into an ordinary closure
+					return strings.Contains(o.Construct, "FuncLit") && !strings.HasSuffix(o.Construct, " L") && !strings.Contains(o.Construct, "fallthrough")
+				case "OPT.ETA":
+					for _, b := range buildBreaking {
+						if strings.Contains(o.Construct, b) {
+							return true
+						}
+					}
+					return false
+				case "RW.TMPL.CONSUMER":
+					return strings.Contains(o.Construct, "nested in its own block")
+				}
+				return true
+			})
+			c.min("RW.DISPATCH", 21)
+			c.min("RW.TERM", 2)
+			c.min("RW.EXH", 1)
+			c.min("RW.CLOSE", 3)
+			c.min("RW.BRANCHCTX", 100)
+			c.min("OPT.ETA", 5)
+			c.min("RW.IMPORT", 2)
 		},
 	})
 }
@@ -195,6 +319,21 @@ func init() {
 			c.guard("DET.GENSYM", r.ruleGensym)
 			c.guard("DET.TMP", r.ruleTmpDir)
 			c.guard("RW.TMPL.RANGE", r.ruleTmplRange)
+			c.keep(func(o Obligation) bool {
+				switch o.Rule {
+				case "RW.TMPL.RANGE":
+					return false // shape of the loop is C04's; only the naming of the temporary matters here
+				case "RW.FILEPASSES":
+					return strings.HasPrefix(o.Construct, "per-file state")
+				case "DET.TMP":
+					return strings.Contains(o.Construct, "starts empty")
+				}
+				return true
+			})
+			c.min("RW.TMPL.RANGE.GENSYM", 12)
+			c.min("DET.GENSYM", 2)
+			c.min("DET.TMP", 4)
+			c.min("RW.FILEPASSES", 1)
 		},
 	})
 	register(propSpec{
@@ -208,6 +347,21 @@ func init() {
 			c.guard("DET.TMP", r.ruleTmpDir)
 			c.guard("OPT.ORDER", r.ruleOptOrder)
 			c.guard("GEN.ENV", r.ruleGenEnv)
+			c.keep(func(o Obligation) bool {
+				switch o.Rule {
+				case "DET.TMP":
+					return strings.HasPrefix(o.Construct, "GoGen")
+				case "OPT.ORDER":
+					return o.Construct == "file not using seq"
+				}
+				return true
+			})
+			c.min("GEN.HEADER", 1)
+			c.min("GEN.TAG", 1)
+			c.min("GEN.FILTER", 4)
+			c.min("GEN.NAME", 5)
+			c.min("DET.TMP", 3)
+			c.min("GEN.ENV", 1)
 		},
 	})
 }
